@@ -191,6 +191,24 @@ def cone(root_rel: str) -> t.List[str]:
     return sorted(seen)
 
 
+def coqchk(prop: str, timeout: int = 2400) -> dict:
+    """Re-checks the compiled dependency cone of Properties/<prop>.vo with Coq's independent checker and lists the axioms it rests on."""
+    t0 = time.time()
+    rc, out = sh(["coqchk", "-silent", "-o", "-Q", ".", "V", f"V.Properties.{prop}"], timeout, cwd=COQ)
+    res = {"ok": rc == 0, "seconds": round(time.time() - t0, 1), "axioms": None, "tail": out[-600:]}
+    m = re.search(r"\* Axioms:\s*(.*?)\n\s*\n\* Constants/Inductives relying on type-in-type:\s*(.*?)\n\s*\n\* Constants/Inductives relying on unsafe \(co\)fixpoints:\s*(.*?)\n\s*\n\* Inductives whose positivity is assumed:\s*(.*?)\n", out, re.S)
+    if m:
+        res["axioms"] = [x.strip() for x in m.group(1).split("\n") if x.strip() and x.strip() != "<none>"]
+        res["type_in_type"] = m.group(2).strip()
+        res["unsafe_fixpoints"] = m.group(3).strip()
+        res["assumed_positivity"] = m.group(4).strip()
+        res["ok"] = res["ok"] and not res["axioms"] and res["type_in_type"] == "<none>" and res["unsafe_fixpoints"] == "<none>" \
+            and res["assumed_positivity"] == "<none>"
+    else:
+        res["ok"] = False
+    return res
+
+
 def forbidden_scan(prop: t.Optional[str] = None) -> t.List[str]:
     """Scans the dependency cone of Properties/<prop>.v (the whole development when prop is None)."""
     hits = []
